@@ -10,17 +10,21 @@
    to a later call.  Terminal states are printed as scenarios with the predicted outcome of every call.    *)
 EXTENDS Naturals, Sequences, FiniteSets, TLC, Json
 CONSTANTS N
-VARIABLES policy, echo, nextId, calls, cur, phase, wire, held, store, seenByServer
-vars == <<policy, echo, nextId, calls, cur, phase, wire, held, store, seenByServer>>
+VARIABLES policy, echo, nextId, calls, cur, phase, wire, held, heldEcho, store, seenByServer
+vars == <<policy, echo, nextId, calls, cur, phase, wire, held, heldEcho, store, seenByServer>>
 
 \* at most one reply is held at a time (held from the previous call): a set of size <= 1 as a sequence of messages
 SetToSeqOf(S) == IF S = {} THEN <<>> ELSE <<[kind |-> "reply", id |-> CHOOSE x \in S : TRUE]>>
 \* "werr": the request reaches the server completely and is answered at once, but the client's write of the trailing
 \* return fails, so the call ends with an error although its message-id has been used
-Policies == {"now", "late", "never", "werr"}
+\* "lateecho": like "late", and in addition the echo of this request is delayed past the call's timeout (a stalled
+\* network): it reaches the client together with the echo of the next request (NcReadLoop.tla, PromptEcho = FALSE)
+Policies == {"now", "late", "never", "werr", "lateecho"}
+EchoSeqOf(S) == IF S = {} THEN <<>> ELSE <<[kind |-> "echo", id |-> CHOOSE x \in S : TRUE]>>
 Init == /\ policy \in [1..N -> Policies] /\ echo \in BOOLEAN
         /\ nextId = 101 /\ calls = <<>> /\ cur = 1 /\ phase = "idle"
-        /\ wire = <<>> /\ held = {} /\ store = {} /\ seenByServer = <<>>
+        /\ wire = <<>> /\ held = {} /\ heldEcho = {} /\ store = {} /\ seenByServer = <<>>
+        /\ (\E j \in 1..N : policy[j] = "lateecho") => echo
 
 \* the client builds and writes request cur; the server reacts at once (causal)
 Send == /\ phase = "idle" /\ cur <= N
@@ -29,34 +33,35 @@ Send == /\ phase = "idle" /\ cur <= N
         /\ seenByServer' = Append(seenByServer, nextId)
         /\ LET lateMsgs == SetToSeqOf(held)
                own == IF policy[cur] \in {"now", "werr"} THEN <<[kind |-> "reply", id |-> nextId]>> ELSE <<>>
-               ech == IF echo THEN <<[kind |-> "echo", id |-> nextId]>> ELSE <<>>
-           IN wire' = wire \o ech \o lateMsgs \o own
-        /\ held' = IF policy[cur] = "late" THEN {nextId} ELSE {}
+               ech == IF echo /\ policy[cur] # "lateecho" THEN <<[kind |-> "echo", id |-> nextId]>> ELSE <<>>
+           IN wire' = wire \o EchoSeqOf(heldEcho) \o ech \o lateMsgs \o own
+        /\ held' = IF policy[cur] \in {"late", "lateecho"} THEN {nextId} ELSE {}
+        /\ heldEcho' = IF policy[cur] = "lateecho" THEN {nextId} ELSE {}
         /\ phase' = IF policy[cur] = "werr" THEN "failed" ELSE "waiting"
         /\ UNCHANGED <<policy, echo, cur, store>>
 \* the write error ends the call at once
 WriteFails == /\ phase = "failed"
               /\ calls' = [calls EXCEPT ![cur].out = "error"]
               /\ phase' = "idle" /\ cur' = cur + 1
-              /\ UNCHANGED <<policy, echo, nextId, wire, held, store, seenByServer>>
+              /\ UNCHANGED <<policy, echo, nextId, wire, held, heldEcho, store, seenByServer>>
 \* the NETCONF read loop consumes one complete server message
 Deliver == /\ wire # <<>>
            /\ store' = IF Head(wire).kind = "reply" THEN store \cup {Head(wire).id} ELSE store
            /\ wire' = Tail(wire)
-           /\ UNCHANGED <<policy, echo, nextId, calls, cur, phase, held, seenByServer>>
+           /\ UNCHANGED <<policy, echo, nextId, calls, cur, phase, held, heldEcho, seenByServer>>
 Fetch == /\ phase = "waiting" /\ calls[cur].id \in store
          /\ calls' = [calls EXCEPT ![cur].out = "ok", ![cur].got = calls[cur].id]
          /\ store' = store \ {calls[cur].id}
          /\ phase' = "idle" /\ cur' = cur + 1
-         /\ UNCHANGED <<policy, echo, nextId, wire, held, seenByServer>>
+         /\ UNCHANGED <<policy, echo, nextId, wire, held, heldEcho, seenByServer>>
 \* the deadline: only when the server is not going to answer in time (a reply sent "now" always beats it)
 Expire == /\ phase = "waiting" /\ policy[cur] # "now"
           /\ calls' = [calls EXCEPT ![cur].out = "timeout"]
           /\ phase' = "idle" /\ cur' = cur + 1
-          /\ UNCHANGED <<policy, echo, nextId, wire, held, store, seenByServer>>
+          /\ UNCHANGED <<policy, echo, nextId, wire, held, heldEcho, store, seenByServer>>
 \* after the last call the server finally releases what it held
-Flush == /\ cur = N + 1 /\ held # {}
-         /\ wire' = wire \o SetToSeqOf(held) /\ held' = {}
+Flush == /\ cur = N + 1 /\ (held # {} \/ heldEcho # {})
+         /\ wire' = wire \o EchoSeqOf(heldEcho) \o SetToSeqOf(held) /\ held' = {} /\ heldEcho' = {}
          /\ UNCHANGED <<policy, echo, nextId, calls, cur, phase, store, seenByServer>>
 Next == Send \/ WriteFails \/ Deliver \/ Fetch \/ Expire \/ Flush
 Spec == Init /\ [][Next]_vars /\ WF_vars(Next)
@@ -66,7 +71,7 @@ OwnReply    == \A j \in 1..Len(calls) : calls[j].out = "ok" => calls[j].got = ca
 NoLoss      == \A j \in 1..Len(calls) : (policy[j] = "now" /\ calls[j].out # "waiting") => calls[j].out = "ok"
 ServerSawAll == seenByServer = [j \in 1..Len(calls) |-> 100 + j]
 Done == <>(cur = N + 1)
-Terminal == cur = N + 1 /\ wire = <<>> /\ held = {}
+Terminal == cur = N + 1 /\ wire = <<>> /\ held = {} /\ heldEcho = {}
 Emit == Terminal => PrintT("SCN " \o ToJson([n |-> N, echo |-> echo, policy |-> policy,
                                              outcome |-> [j \in 1..N |-> calls[j].out], ids |-> [j \in 1..N |-> calls[j].id]]))
 =============================================================================
